@@ -84,6 +84,16 @@ func slex(src string) ([]stok, error) {
 				for j < len(src) && (src[j] >= '0' && src[j] <= '9' || src[j] == '_') {
 					j++
 				}
+				// float literal: digits '.' digits
+				if j+1 < len(src) && src[j] == '.' && src[j+1] >= '0' && src[j+1] <= '9' {
+					j++
+					for j < len(src) && src[j] >= '0' && src[j] <= '9' {
+						j++
+					}
+					out = append(out, stok{"float", src[i:j]})
+					i = j
+					continue
+				}
 			}
 			out = append(out, stok{"int", strings.ReplaceAll(src[i:j], "_", "")})
 			i = j
@@ -338,6 +348,8 @@ func (p *sparser) parsePrimary() SExpr {
 	switch t.kind {
 	case "int":
 		return SLit{"int", t.val}
+	case "float":
+		return SLit{"float", t.val}
 	case "str":
 		return SLit{"string", t.val}
 	case "id":
